@@ -1566,9 +1566,9 @@ class SpaceManager(SharedSpaceOperations):
             is_relative = False
             subref = subspace.own_refs[name]
             if subref.is_defined():
-                break
+                continue
             elif subref.defined_bases[0] is not space.own_refs[name]:
-                break
+                continue
             if isinstance(value, Interface) and value._is_valid():
                 if (refmode == "auto"
                         or refmode == "relative"):
